@@ -268,7 +268,10 @@ pub fn lanes_for(prop: &str, thorough: bool, seed: u64) -> Vec<LaneResult> {
     match prop {
         "C01" => v.push(miri_lane(prop, "c01", &[s * 8 + 1, s * 8 + 2, s * 8 + 3, s * 8 + 5], None)),
         "C03" | "C04" => v.push(miri_lane(prop, "c03", &[s * 8 + 1, s * 8 + 2, s * 8 + 3, s * 8 + 4, s * 8 + 5, s * 8 + 6], None)),
-        "C08" => v.push(miri_lane(prop, "c01", &[s * 8, s * 8 + 4], None)),
+        "C08" => {
+            v.push(miri_lane(prop, "c01", &[s * 8, s * 8 + 4], None));
+            v.push(worker_lane("asan", &asan, prop, s, 8, 20, &[("ASAN_OPTIONS", "abort_on_error=1:detect_leaks=1")]));
+        }
         "C09" => {
             v.push(miri_lane(prop, "c03", &[s * 8 + 1, s * 8 + 2, s * 8 + 3, s * 8 + 4, s * 8 + 5, s * 8 + 6, s * 8 + 7, s * 8 + 9], None));
             v.push(worker_lane("asan", &asan, prop, s, 8, 20, &[("ASAN_OPTIONS", "abort_on_error=1:detect_leaks=1")]));
